@@ -1,18 +1,20 @@
 """C09 - whatever the library signs verifies again after a trip through the wire format."""
-from . import canon, shared, C04
+from . import canon, shared, C04, keys
 from ..ss import Schema
 
 EXPLANATION = (
     "Sibling-agreement rules. D1: Metablock::new, MetablockBuilder::sign, Metablock::verify and the key-id pre-image all "
     "derive their bytes from the canonical bytes of the metadata through the same post-processing chain, and to_bytes is "
-    "canonicalize(serialize(self)). D2: the sign / verify scheme tables agree (C04/D6, re-checked). D3: a single codec "
+    "canonicalize(serialize(self)). D2: the sign / verify scheme tables agree (C04/D6, re-checked), and every non-private PublicKey constructor that is "
+    "told a signature scheme (or key-id hash algorithms) stores exactly that parameter, or hands exactly it to the next constructor. D3: a single codec "
     "alphabet (data_encoding::HEXLOWER) is used for everything written and read. D4: Signature's and Metablock's "
-    "serialised key sets equal their accepted key sets (schema extracted from the derive-expanded code).")
+    "serialised key sets equal their accepted key sets (schema extracted from the derive-expanded code), and the string "
+    "newtypes (artifact paths, key ids) store the decoded text unchanged.")
 DECIDED = ["D1 one signed-bytes derivation at all sites", "D2 sign/verify scheme tables agree", "D3 one hex codec", "D4 signature / block schema symmetry"]
 UNDECIDED = ["round trip of arbitrary Unicode through serde_json text", "bit-flip / foreign-key negatives (cryptography)"]
 TRUSTED = ["serde_json round-trips strings", "ring"]
 ASSUMPTIONS = []
-FLOORS = {"C09/D1": 9, "C09/D3": 2, "C09/D4": 2, "C04/D6": 9}
+FLOORS = {"C09/D1": 9, "C09/D2": 4, "C09/D3": 2, "C09/D4": 4, "C04/D6": 9}
 
 
 def run(ctx):
@@ -26,7 +28,13 @@ def run(ctx):
     canon.check_writer(ctx, "C09/D1", "C09/D1")
     # the verifier visits every signature of the block once and counts each valid authorised one (positive direction of the round trip)
     shared.check_threshold_core(ctx, prefix="C04")
+    # a key is what its importer was told it is: the declared scheme reaches the key unchanged (negative direction: the same
+    # material declared with another scheme is another key, with another id, and does not verify)
+    keys.check_declared_passthrough(ctx, "C09/D2")
     canon.check_codec(ctx, "C09/D3")
+    # what is read back is what was written: string newtypes keep the decoded text (a path or key id rewritten on the way in is
+    # signed over one text and verified over another)
+    keys.check_string_newtypes(ctx, "C09/D4")
     S = Schema(ctx.fx)
     for ty in ("crypto::Signature", "models::metadata::Metablock"):
         s, d = S.ser.get(ty), S.de.get(ty)
